@@ -156,6 +156,15 @@ func newWorld(r *rand.Rand, o worldOpts) *World {
 		}
 	}
 	w.Book = gen.RandomBook(r, gen.BookOpts{Recipes: nrec, Basics: nbas, MaxDepth: 1 + r.Intn(4), Exact: o.Exact, RecipeNames: w.Recipes, BasicNames: w.Basics, NoEmpty: o.NoEmpty, NoZero: o.NoZero, Wide: wide, Redeclare: r.Intn(8) == 0})
+	if altCC == 0 && r.Intn(6) == 0 && len(w.Book) >= 1 {
+		// a heading whose name begins with the comment character (written in quotes, e.g. "#1 combo"): a recipe
+		// like any other in the exports, although nothing can refer to it
+		hash := gen.Recipe{Name: "#" + w.Basics[0] + " combo", Ents: []gen.Ent{{Name: w.Basics[0], Val: gen.N("180")}, {Name: w.Basics[len(w.Basics)-1], Val: gen.N("75")}}}
+		if !inList(all, hash.Name) {
+			at := 1 + r.Intn(len(w.Book))
+			w.Book = append(w.Book[:at:at], append(gen.Book{hash}, w.Book[at:]...)...)
+		}
+	}
 	foods := append(append(append([]string{}, w.Recipes...), w.Recipes...), w.Basics...)
 	foods = append(foods, w.Unknown...)
 	days := o.MinDays + r.Intn(o.MaxDays-o.MinDays+1)
